@@ -11,6 +11,7 @@ import (
 	"net"
 	"os"
 	"os/exec"
+	"os/signal"
 	"strings"
 	"sync"
 	"syscall"
@@ -49,20 +50,46 @@ func capture(ifname string, ms int, outPath string) {
 	}
 	// room for bursts of a rate-limited scan of a big subnet (SO_RCVBUFFORCE: we are root)
 	syscall.SetsockoptInt(fd, syscall.SOL_SOCKET, 33 /* SO_RCVBUFFORCE */, 32<<20)
+	// kernel receive time stamps: the times used in the judgement do not depend on when this process
+	// gets the CPU
+	syscall.SetsockoptInt(fd, syscall.SOL_SOCKET, 35 /* SO_TIMESTAMPNS */, 1)
 	tv := syscall.Timeval{Sec: 0, Usec: 50000}
 	syscall.SetsockoptTimeval(fd, syscall.SOL_SOCKET, syscall.SO_RCVTIMEO, &tv)
+	stop := make(chan os.Signal, 1)
+	signal.Notify(stop, syscall.SIGTERM, syscall.SIGINT)
 	fmt.Println("ready")
 	end := time.Now().Add(time.Duration(ms) * time.Millisecond)
 	buf := make([]byte, 2048)
+	oob := make([]byte, 256)
+	stopping := false
 	for time.Now().Before(end) {
-		n, _, err := syscall.Recvfrom(fd, buf, 0)
+		select {
+		case <-stop:
+			// drain what is already queued, then leave
+			stopping = true
+		default:
+		}
+		n, oobn, _, _, err := syscall.Recvmsg(fd, buf, oob, 0)
 		if err != nil || n < 42 {
+			if stopping {
+				return
+			}
 			continue
 		}
 		if binary.BigEndian.Uint16(buf[12:14]) != 0x0806 {
 			continue
 		}
-		w.Put(arpSeen{T: time.Now().UnixNano(), Op: int(binary.BigEndian.Uint16(buf[20:22])),
+		t := time.Now().UnixNano()
+		if cms, err := syscall.ParseSocketControlMessage(oob[:oobn]); err == nil {
+			for _, cm := range cms {
+				if cm.Header.Level == syscall.SOL_SOCKET && cm.Header.Type == 35 && len(cm.Data) >= 16 {
+					sec := int64(binary.LittleEndian.Uint64(cm.Data[0:8]))
+					nsec := int64(binary.LittleEndian.Uint64(cm.Data[8:16]))
+					t = sec*1000000000 + nsec
+				}
+			}
+		}
+		w.Put(arpSeen{T: t, Op: int(binary.BigEndian.Uint16(buf[20:22])),
 			Sender: net.IP(buf[28:32]).String(), Target: net.IP(buf[38:42]).String()})
 	}
 }
@@ -70,6 +97,8 @@ func capture(ifname string, ms int, outPath string) {
 type e2eOut struct {
 	Kind       string    `json:"kind"`
 	Class      string    `json:"class"`
+	Idx        int       `json:"idx"`
+	JitterMS   float64   `json:"jitter_ms"` // worst overshoot of a 2 ms sleep of the harness during the run
 	Subnet     string    `json:"subnet"`
 	SrcIP      string    `json:"src_ip"`
 	PeerIP     string    `json:"peer_ip"`
@@ -100,7 +129,7 @@ var e2eMu sync.Mutex
 
 // runE2E runs `sx arp --live` once. 10.<a>.<b>.0/<prefix>, source .1, peer .2. With a rate and a subnet
 // bigger than the buffers of the pipeline a pass lasts longer than the interval.
-func runE2E(sxPath, self, workDir string, idx int, intervalMS, runMS int, exclude []string, rate int, prefix int) e2eOut {
+func runE2E(sxPath, self, workDir string, idx int, intervalMS, runMS int, exclude []string, rate int, prefix int) (o e2eOut) {
 	tag := fmt.Sprintf("%d%d", os.Getpid()%100000, idx)
 	n1, n2, v1, v2 := "vc19a"+tag, "vc19b"+tag, "vq1"+tag, "vq2"+tag
 	third := os.Getpid() % 250
@@ -109,7 +138,7 @@ func runE2E(sxPath, self, workDir string, idx int, intervalMS, runMS int, exclud
 	}
 	base := fmt.Sprintf("10.%d.%d.", 200+idx%50, third)
 	plen := fmt.Sprint(prefix)
-	o := e2eOut{Kind: "e2e", Class: "e2e-arp-live", Subnet: base + "0/" + plen, SrcIP: base + "1", PeerIP: base + "2",
+	o = e2eOut{Kind: "e2e", Class: "e2e-arp-live", Idx: idx, Subnet: base + "0/" + plen, SrcIP: base + "1", PeerIP: base + "2",
 		Exclude: append([]string{}, exclude...), IntervalMS: intervalMS, RunMS: runMS, Rate: rate, Stdout: []string{}, Seen: []arpSeen{}}
 	for i, x := range o.Exclude {
 		o.Exclude[i] = base + x
@@ -137,7 +166,7 @@ func runE2E(sxPath, self, workDir string, idx int, intervalMS, runMS int, exclud
 	}
 	e2eMu.Unlock()
 	capFile := fmt.Sprintf("%s/e2e-cap-%d.jsonl", workDir, idx)
-	capCmd := exec.Command("ip", "netns", "exec", n2, self, "-capture", v2, "-capms", fmt.Sprint(runMS+900), "-out", capFile)
+	capCmd := exec.Command("ip", "netns", "exec", n2, self, "-capture", v2, "-capms", fmt.Sprint(runMS+30000), "-out", capFile)
 	capOut, _ := capCmd.StdoutPipe()
 	capCmd.Stderr = os.Stderr
 	if err := capCmd.Start(); err != nil {
@@ -182,6 +211,28 @@ func runE2E(sxPath, self, workDir string, idx int, intervalMS, runMS int, exclud
 	cmd := exec.Command("ip", args...)
 	var stdout, stderr bytes.Buffer
 	cmd.Stdout, cmd.Stderr = &stdout, &stderr
+	// scheduling jitter seen by this process while sx runs
+	jstop, jdone := make(chan struct{}), make(chan float64, 1)
+	go func() {
+		worst := 0.0
+		for {
+			select {
+			case <-jstop:
+				jdone <- worst
+				return
+			default:
+			}
+			t := time.Now()
+			time.Sleep(2 * time.Millisecond)
+			if d := float64(time.Since(t)-2*time.Millisecond) / 1e6; d > worst {
+				worst = d
+			}
+		}
+	}()
+	defer func() {
+		close(jstop)
+		o.JitterMS = <-jdone
+	}()
 	o.Start = time.Now().UnixNano()
 	if err := cmd.Start(); err != nil {
 		capCmd.Process.Kill()
@@ -219,6 +270,8 @@ func runE2E(sxPath, self, workDir string, idx int, intervalMS, runMS int, exclud
 	if len(o.Stderr) > 600 {
 		o.Stderr = o.Stderr[:600]
 	}
+	time.Sleep(60 * time.Millisecond)
+	capCmd.Process.Signal(syscall.SIGTERM)
 	capCmd.Wait()
 	if f, err := os.Open(capFile); err == nil {
 		sc := bufio.NewScanner(f)
